@@ -177,6 +177,21 @@ func (w *runWorld) keyDriver(id, nops int) {
 				c.S.Count("probe:removed")
 				w.markDead(before, "RemoveKey returned true")
 			}
+			if existed && w.delay != 0 && c.S.PlanP(500) {
+				// disturb the key while its delayed removal is pending: the removal must
+				// still cancel whatever instance is running when the delay expires
+				c.S.Count("probe:disturbed-during-release-delay")
+				switch c.S.Plan(3) {
+				case 0:
+					w.k.RestartRoutine(key)
+				case 1:
+					w.inReset[me] = true
+					w.k.ResetRoutine(key)
+					w.inReset[me] = false
+				default:
+					w.k.RemoveKey(key)
+				}
+			}
 		case k < 10 && w.rcv != nil:
 			// release a reference (possibly one taken by the other driver, possibly twice)
 			if len(w.refs) == 0 {
